@@ -468,11 +468,24 @@ def _group(family):
     return {"loss": "loss", "fn": "fn", "cons": "cons", "ml": "ml"}.get(family.split(":", 1)[0], "")
 
 
+def _bias_moves(l):
+    """FAIL line of the linear objective: parameters = [W (tsize*isize), bias (tsize)]; true iff x and z differ in a bias coordinate"""
+    m = re.search(r"tsize=(\d+)", l)
+    mx, mz = re.search(r" x=\[([^\]]*)\]", l), re.search(r" z=\[([^\]]*)\]", l)
+    if not (m and mx and mz):
+        return False
+    t = int(m.group(1))
+    x, z = mx.group(1).split(","), mz.group(1).split(",")
+    return len(x) == len(z) and len(x) > t and x[-t:] != z[-t:]
+
+
 def _candidate_of(l, probes):
     """fingerprint of the known / candidate finding a FAIL line belongs to (None: a plain violation)"""
     p = l.split(" ", 2)
     clause, fam = p[1], _family(l)
-    if clause == "strong-convexity" and re.match(r"ml:linear\(.*,l2\)$", fam) and probes.get("linear-strong-convexity"):
+    # the known finding is narrow: the full-parameter objective, a pair (x, z) that MOVES THE BIAS (the unregularised directions);
+    # pairs that differ in the weights only (family ml:linear-W, or a full-space pair with identical bias) are plain violations
+    if clause == "strong-convexity" and re.match(r"ml:linear\(.*,l2\)$", fam) and probes.get("linear-strong-convexity") and _bias_moves(l):
         return LINEAR_FP
     return None
 
@@ -530,12 +543,16 @@ def run(tier, replay=None):
         (cand[fp] if fp else plain).append(l)
     cand[LINEAR_FP] = probes.get("linear-strong-convexity", []) + cand.get(LINEAR_FP, [])
     # directed probes of the two FIXED defects (exact cb3 ties, non-symmetric P): a violated probe is a concrete failing input
-    for key in ("cb3-tie", "quadratic-nonsymmetric"):
+    for key in ("cb3-tie", "quadratic-nonsymmetric", "linear-weights-strong-convexity"):
         if probes.get(key):
             first = probes[key][0]
             r.violation("probe-%s" % key, {"kind": "directed probe violated: " + {
                 "cb3-tie": "chained_cb3I/II declare convex, but on an exact tie v1 == v2 > v3 the returned vector is not a sub-gradient "
                            "(the gradient of an inactive piece): /repo 114b02b reverted?",
+                "linear-weights-strong-convexity": "linear::function_t: for a pair that differs in the WEIGHTS only (bias identical) the declared "
+                                                   "strong-convexity coefficient must be the coefficient l2/(isize*tsize) of the l2 term; the "
+                                                   "inequality fails, i.e. the declared coefficient is too large (this is NOT the known finding "
+                                                   "about the unregularised bias)",
                 "quadratic-nonsymmetric": "a quadratic constraint with a non-symmetric P is declared (strongly) convex although "
                                           "1/2 x'Px + q'x + r violates the inequality: convexity must be decided by 0.5*(P+P'), /repo 3feb922 reverted?"}[key],
                 "case": first[:3000], "violated_probes": len(probes[key]), "all": [l[:600] for l in probes[key][:8]],
